@@ -116,12 +116,31 @@ var extraExplanations4 = map[string]string{
 
 const genericExplanation = "R-LOST-EFFECT family (rules_generic.go, rules_memo.go; reported under every property whose anchor files contain the construct): R-RECOVER-EFFECT-LOST — a deferred recover() records the panic in a variable nothing reads after the deferred call has run; R-ERROR-SHADOWED — `:=` redeclares, in a block that returns, an error variable whose outer instance a closure or pointer observes; R-HEADER-AFTER-STATUS — a header is set after WriteHeader on the same writer; R-MEMO-KEY-COMPLETE — a memo site absent from the reference inventory (refmemo.json) stores a value depending on inputs its key lacks (sync.Once: no key)."
 
+// rules written after the third round's blind spots were reviewed (rules_seedfix6.go, rules_pool.go)
+var extraExplanations5 = map[string]string{
+	"C15": "R-CALL-TOKEN-REQUIRED (shared with C12/C13): a resolveCall failure in handleStreamExchange is answered with an error and ends the request on every path, cancel turns included. R-CACHE-ENTRIES-IMMUTABLE also covers a whole-struct store through an indexed entry.",
+	"C16": "R-UPLOADED-BATCH-VERBATIM: every ipc.Writer.Write in serializeBatchAsIPC writes the function's own batch parameter (through phis and spilled cells), never a re-wrapped record.",
+	"C18": "R-POOLED-OBJECT-FULLY-REBOUND (generic): in a function that takes an object from a sync.Pool absent from refmemo.json or else constructs one, every input of the constructor also reaches the recycled object through a method call on it.",
+	"C19": "R-SOFT-CAP-UNCONDITIONAL: the short-circuit chain that ends a producer turn on bytes-written >= max_response_bytes contains no conjunct other than the comparison, `cap > 0` and the buffer's nil test (conditions that already dominate the chain's head are not counted).",
+	"C21": "R-LOGS-NEVER-DATA (path form): from the outermost block known to hold a zero-row record with a log level, the append to the parsed data batches is unreachable before the next reader.Next.",
+	"C22": "R-ROUTER-CONSULTS-NO-COMPONENT: ServeHTTP and the package's non-handler functions it calls directly make no dynamic call on a value held in an HttpServer field (provider, resolver, validator, callback): everything before the mux runs for unauthenticated requests.",
+	"C25": "R-NONCES-NEVER-BULK-FORGOTTEN: nothing except a literal under construction replaces nonceCache.entries/order, clears the map or re-initialises the list.",
+	"C27": "R-DERIVE-FROM-WHOLE-KEY: the HMAC in deriveSessionKey is not keyed with a slice of a fixed-size local array.",
+	"C30": "R-DECODED-CAP-PROVENANCE: the bound given to decompressZstdCapped in fetchExternalData traces (through parameters, call sites and the config accessor) to ExternalLocationConfig.MaxDecompressedBytes and to no other Max*/Externalize* field of that config.",
+	"C33": "R-UPLOAD-SHARES-NOTHING: outside a held lock, Upload stores nothing into memory reached from its receiver.",
+	"C36": "R-KEYS-STRIPPED-BY-NAME: ResolveShmBatch keeps the sender's metadata keys under a by-name test against both pointer keys.",
+	"C37": "R-TURN-ERROR-IS-REPORTED: every non-nil error return of runProduceLoopCapped is dominated by a writeErrorBatch call or returns the result of ipc.Writer.Write/Close itself.",
+	"C40": "R-RELEASE-DEFERRED-ONLY (shared with C29): the three RPC handlers release the per-session lock by exactly one deferred call and nowhere else.",
+	"C41": "R-RELEASE-LOOP-COVERS-ZERO: a counting loop that releases the element it indexes and whose other bound is the progress counter of an enclosing loop starts at 0 (ascending) or runs while the counter >= 0 (descending).",
+	"C43": "R-GUARD-TESTS-WHAT-IS-USED: an interface call on a value resolved from alternatives (a phi) is not guarded by a nil test on one of the alternatives alone.",
+}
+
 func applyExtraExplanations() {
 	for _, p := range registry {
-		p.Explanation += " Plus the generic lost-effect rules (R-RECOVER-EFFECT-LOST, R-ERROR-SHADOWED, R-HEADER-AFTER-STATUS, R-MEMO-KEY-COMPLETE; DESIGN §3) on this property's anchor files."
+		p.Explanation += " Plus the generic lost-effect rules (R-RECOVER-EFFECT-LOST, R-ERROR-SHADOWED, R-HEADER-AFTER-STATUS, R-MEMO-KEY-COMPLETE, R-POOLED-OBJECT-FULLY-REBOUND; DESIGN §3) on this property's anchor files."
 	}
 	_ = genericExplanation
-	for _, m := range []map[string]string{extraExplanations, extraExplanations2, extraExplanations3, extraExplanations4} {
+	for _, m := range []map[string]string{extraExplanations, extraExplanations2, extraExplanations3, extraExplanations4, extraExplanations5} {
 		for id, extra := range m {
 			if p, ok := registry[id]; ok {
 				p.Explanation += " " + extra
